@@ -27,6 +27,10 @@ def traces_of(env, rep, ty, skip=("handle_input", "new")):
             ex.track_stores = True
             ex.track_ext = True
             ex.track_local_muts = True
+            # small helpers are followed in place (extracting "first argument as stream id" into a function changes nothing here)
+            ex.inline = True
+            units = grammar.named_units(prog)
+            ex.inline_pred = lambda cb, t: cb.pretty.split("::")[-1] not in units
             out[name] = (b, [sig(p) for p in ex.run().paths])
     return out
 
@@ -80,7 +84,7 @@ def run(env, rep):
         "the @setDataFrame / onMetaData framing and the eleven metadata keys (three tables) agree, each key bound to the same field; "
         "R2 argument positions of publish, play, createStream's result and deleteStream agree; R3 media payload and timestamp flow "
         "unchanged from the publish_* parameters into serialize and from the deserialized payload into the raised events; R4 a "
-        "received SetChunkSize is applied to the own deserializer with the announced size in both sessions; R5-R7 (shared rules: C18 R1, C01 R1-R2, C07 R3 compression only on equality and R6 no empty chunk): the packet-order "
+        "received SetChunkSize is applied to the own deserializer with the announced size in both sessions; R5-R8 (shared rules: C18 R1, C01 R1-R3, C07 R3 compression only on equality and R6 no empty chunk, C16 R1-R2/R4 reassembly per chunk stream, C15 R1 effect-free suspension, C06 R3 timestamp rules of the reader): the packet-order "
         "rule of C18 R1 and the codec agreement rules of C01 R1-R2 that interoperation rests on.  Not decided: completion of "
         "connect / publish / play and exactly-once in-order delivery under all interleavings.")
     I.ELEM_SOURCES[0] = True
@@ -241,7 +245,7 @@ def run(env, rep):
     dele = c_cmds.get("deleteStream", [])
     ok_del_c = bool(dele) and all(re.search(r"vec!\[Amf0Value::Number\(", x[1]) for x in dele)
     sd = st.get("handle_command_delete_stream", (None, []))[1]
-    ok_del_s = any(t[0] == "mut" and t[2] == "active_streams" and t[1] == "remove" and re.match(r"^&?\(?elem\[0\] of \w+ as Number\.0", t[3][0]) for p in sd for t in p)
+    ok_del_s = any(t[0] == "mut" and t[2] == "active_streams" and t[1] == "remove" and re.match(r"^&?\(?elem\[0\](?: of \w+)?(?: as Number\.0)?( as u32|\)|$)", t[3][0]) for p in sd for t in p)
     rep.check("C02.R2", "delete-stream-argument", ok_del_c and ok_del_s, "deleteStream carries the stream id as first argument on both sides", "deleteStream argument position differs")
     # ------------------------------------------------------------------ R3 identity flow of media
     for name, variant in (("publish_audio_data", "AudioData"), ("publish_video_data", "VideoData")):
@@ -333,3 +337,10 @@ def run(env, rep):
     from . import C07
     if wants(rep, "C02.R7"):
         C07.run(env, PrefixReport(rep, "C07.", "C02.R7.", only=("C07.R3", "C07.R6")))
+    # the reader side the exchange rests on: partial messages per chunk stream (forced type-0 continuation chunks included),
+    # suspension without effect, timestamp rules
+    if wants(rep, "C02.R8"):
+        from . import C16, C15, C06
+        C16.run(env, PrefixReport(rep, "C16.", "C02.R8.", only=("C16.R1", "C16.R2", "C16.R4")))
+        C15.run(env, PrefixReport(rep, "C15.", "C02.R8.", only=("C15.R1",)))
+        C06.run(env, PrefixReport(rep, "C06.", "C02.R8.", only=("C06.R3",)))
